@@ -35,6 +35,17 @@ CHECKS = {
             "(x=T(u), logL=f(x), blob=b(x), u in the cube, whole-record moves, append-only history).",
             "Trusted: purity/injectivity of the fixtures. Pipeline layer covers option combinations pairwise (quick) / 3-wise (thorough) and a two-symbol tape alphabet per iteration.",
             "DESIGN.md §4 C07"),
+    "C12": ("model_checking",
+            "terminal-state exploration of deviation-bounded runs over a covering array; exhaustive product of posterior() options x trimming parameters x scripted resampling offsets on every terminal state, against the reference MIS model",
+            "Every terminal state reached by the real run() with <=1 tape deviation per configuration (pairwise/3-wise covering array of kernel, resampler, clustering, metric, evaluation, boundary, n_total, ess_ratio, target) "
+            "is checked for |1-beta|<1e-4, reference ESS>=n_total and evidence()==reference logZ(1); then all 16 flag combinations of posterior() x 4 trimming settings x scripted offsets are executed and checked for arity, "
+            "equal lengths, normalised/uniform weights and row-by-row alignment of x, logL, blob and log-weight with the stored particles.",
+            "Trusted: float reference MIS model, pure fixtures. The per-configuration run cap is reported in evidence when hit.", "DESIGN.md §4 C12"),
+    "C18": ("model_checking",
+            "exhaustive one-factor-at-a-time enumeration of invalid values over 4 base configurations; covering-array exploration (pairwise / 3-wise) of the constructor option product with complete real runs and delta-minimisation of failures",
+            "All listed constraint violations x 4 valid bases must be rejected by the constructor with zero likelihood/prior calls; every row of a strength-2 (quick) / strength-3 (thorough) covering array over 14 constructor options "
+            "(incl. pool in {None,1,2,object}, save_every on an in-memory file system, cluster cadence and caps) must construct, run to completion and satisfy the run post-conditions.",
+            "Trusted: covering-array generator (its tuple coverage is measured and reported). Higher-order interactions than the stated strength are not covered.", "DESIGN.md §4 C18"),
 }
 
 NOT_APPLICABLE = {
